@@ -640,8 +640,26 @@ def draw_parameters(ctx, chk):
                     from .c09 import zero_facts
                     z = zero_facts(o.pc)     # easy counts that this path knows to be zero
 
-                    def same(a_, b_, _z=z):   # noqa: F811  (comparison modulo the path's zero facts)
-                        return a_ is not None and b_ is not None and _same(subst(a_, _z), subst(b_, _z))
+                    def same(a_, b_, _z=z, _pc=o.pc):   # noqa: F811  (comparison modulo the path's zero facts)
+                        if a_ is None or b_ is None:
+                            return False
+                        if _same(subst(a_, _z), subst(b_, _z)):
+                            return True
+                        # a ratio written as a conditional expression (`q if total > 0 else 1.0`) is an ite term: compared case by case, each
+                        # case with its own zero facts; a case in which the specified quotient is 0/0 says nothing
+                        from .c09 import ite_cases
+                        cases = ite_cases(_pc, a_)
+                        if len(cases) <= 1:
+                            return False
+                        for pc_, v_ in cases:
+                            zz = dict(_z)
+                            zz.update(zero_facts(pc_))
+                            dens = [x_.args[0] for x_ in atoms_of(b_) if isinstance(x_, _A) and x_.fn == "inv"]
+                            if any(_same(subst(d_, zz), Const(0)) for d_ in dens):
+                                continue
+                            if not _same(subst(v_, zz), subst(b_, zz)):
+                                return False
+                        return True
                     sized = [e for e in o.events if e["kind"] == "rng" and e["fn"] in ("binomial", "poisson") and "size" not in e["kwargs"]]
                     multi = [e for e in o.events if e["kind"] == "rng" and e["fn"] in ("binomial", "poisson") and "size" in e["kwargs"]]
                     if by_label:
